@@ -43,7 +43,7 @@ class C25(OpMachine):
     expected_probes = ["getbytes_ok", "getbytes_fault", "getbits_ok", "getbits_fault", "getbits_cross_byte", "get_u_ok",
                        "get_u_fault", "get_u_big_endian", "readbs_ok", "readbs_fault", "atomic_section", "atomic_cached_hit",
                        "dis_ok", "dis_failed", "dis_reads_checked", "dis_fault_mid_decode", "vm_unmap", "vm_map",
-                       "src_str", "src_file", "src_pe", "src_vm", "src_elf", "cursor_moved_then_read"]
+                       "src_str", "src_file", "src_pe", "src_vm", "src_elf", "cursor_moved_then_read", "atomic_two_streams"]
 
     needs_build = True
     isolate_shrink = True
@@ -143,7 +143,8 @@ class C25(OpMachine):
                          for _ in range(rng.randint(1, 4))]
                 if rng.random() < 0.6:
                     reads.append(list(reads[0]))      # same read twice: cache hit
-                actions.append([k, reads])
+                # a second stream over other bytes at the same addresses is in atomic mode at the same time
+                actions.append([k, reads, rng.random() < 0.4])
             elif k == "dis":
                 actions.append([k, where, rng.randrange(len(ARCHS))])
             elif k == "vm_toggle":
@@ -214,6 +215,10 @@ class C25(OpMachine):
             w.max_addr = elf.virt.max_addr() + 0x1000
             w.cursor = 0
         w.bs_default_be = w.bs.endianness == self.BE
+        # the peer: another stream instance over *other* bytes at the addresses of the first segment
+        pbase, pdata = w.segs[0]
+        w.peer_base, w.peer_data = pbase, bytes(b ^ 0xFF for b in pdata[:256])
+        w.peer = bsm.bin_stream_str(w.peer_data, base_address=pbase)
         return w
 
     def _addr(self, w, where):
@@ -357,7 +362,11 @@ class C25(OpMachine):
             w.cursor = addr
             log.add(k, hex(addr))
         elif k == "atomic":
+            with_peer = len(a) > 2 and a[2]
             bs.enter_atomic_mode()
+            if with_peer:
+                w.peer.enter_atomic_mode()
+                w.probe("atomic_two_streams")
             w.probe("atomic_section")
             seen = set()
             try:
@@ -373,8 +382,21 @@ class C25(OpMachine):
                     log.add("atomic getbytes", hex(addr), n, got, exc)
                     facts["atomic"] = True
                     self._check(w, "cached getbytes(%#x, %d)" % (addr, n), facts, got, exc, want)
+                    if with_peer:
+                        # the other stream reads the same (address, length) in its own atomic section, then this one again
+                        off = addr - w.peer_base
+                        pwant = w.peer_data[off:off + n] if 0 <= off and off + n <= len(w.peer_data) else None
+                        pgot, pexc = self._call(w.peer.getbytes, addr, n)
+                        log.add("peer getbytes", hex(addr), n, pgot, pexc)
+                        facts["peer"] = True
+                        self._check(w, "second stream, cached getbytes(%#x, %d)" % (addr, n), facts, pgot, pexc, pwant)
+                        got, exc = self._call(bs.getbytes, addr, n)
+                        self._check(w, "cached getbytes(%#x, %d) after the second stream read there" % (addr, n), facts, got, exc, want)
+                        facts.pop("peer", None)
             finally:
                 bs.leave_atomic_mode()
+                if with_peer:
+                    w.peer.leave_atomic_mode()
         elif k == "dis":
             addr = self._addr(w, a[1])
             name, mn, attrib = self.mns[a[2] % len(self.mns)]
